@@ -154,7 +154,86 @@ def r4_key(ctx):
     ctx.ob(rule, name, 'book is keyed by the (from,to) pairs of the move history', ok and reads_history, expected='move_history.iter().map(|m| BookMove::new(m.from_square(), m.to_square()))')
 
 
+def r6_token_parsing(ctx):
+    """the compiled book is built from the tokens of the linted file: origin = first two characters, destination = next two, each
+    converted by the square parser whose table C19.R1 checks - or by another function of the crate, which is then tabulated on all 64
+    square names against the naming table"""
+    rule = 'C15.R6-token-parsing'
+    facts = ctx.facts
+    name = 'chess::book::Book::add_line'
+    SSB = 'common::bitboard::square::square_string_to_bitboard'
+    ALG = facts.consts.get('common::bitboard::square::tables::ALGEBRAIC')
+    names = [x for x in ALG[1]] if isinstance(ALG, tuple) and ALG[0] == 'array' else None
+    crate_fns = {n for n, f in facts.fns.items() if n.startswith('chess::book::') and f.kind != 'Closure' and n != name
+                 and (f.raw.get('sig') or '').replace(' ', '').endswith('->common::bitboard::bitboard::Bitboard')}
+    try:
+        outs = Engine(facts, readonly={SSB} | crate_fns, max_paths=4000).run(name)
+    except Exception as e:
+        ctx.anchor_missing(rule, name, 'not analysable: %s' % e)
+        return
+    ctx.touch(name)
+    bms = set()
+    for o in outs:
+        for e in o.events:
+            if e[0] != 'call':
+                continue
+            for a in e[2]:
+                for s_ in subterms(a):
+                    if s_[0] == 'agg' and s_[1] == 'adt' and str(s_[2]).endswith('book::BookMove') and len(s_[4]) == 2:
+                        bms.add(s_)
+    if not bms:
+        ctx.anchor_missing(rule, name, 'no BookMove constructed')
+        return
+
+    def classify(t):
+        """('parser', fn name, 'from'|'to'|'?') for one coordinate of a BookMove"""
+        if t[0] == 'agg' and len(t[4]) == 1:
+            t = t[4][0][1]
+        if t[0] == 'fld' and t[2] == '0':
+            t = t[1]
+        if t[0] != 'call' or not (t[1] == SSB or t[1] in crate_fns):
+            return ('?', show(t)[:80], '?')
+        a = show(t[2][0])
+        which = '?'
+        if 'skip' in a and ', 2)' in a:
+            which = 'to'
+        elif 'take' in a and 'skip' not in a:
+            which = 'from'
+        elif 'Range(0, 2)' in a or 'RangeTo(2)' in a:
+            which = 'from'
+        elif 'Range(2, 4)' in a:
+            which = 'to'
+        return ('parser', t[1], which)
+    ok = True
+    parsers = set()
+    found = []
+    for bm in bms:
+        c0, c1 = classify(bm[4][0][1]), classify(bm[4][1][1])
+        found.append((c0, c1))
+        ok = ok and c0[0] == 'parser' and c1[0] == 'parser' and (c0[2], c1[2]) == ('from', 'to')
+        parsers |= {c0[1], c1[1]}
+    ctx.ob(rule, name, 'book move = (parse(token[0..2]), parse(token[2..4]))', ok, found=found[:2], expected='origin from the first two characters, destination from the next two',
+           why='the compiled book must be the book that was linted: a transposed or swapped coordinate makes every book move illegal')
+    for pf in sorted(parsers - {SSB}):
+        # tabulate a custom parser on the 64 names
+        bad = []
+        if names is None or pf not in facts.fns:
+            ctx.anchor_missing(rule, pf, 'cannot tabulate')
+            continue
+        ctx.touch(pf)
+        for i, nm in enumerate(names):
+            nm = nm if isinstance(nm, str) else str(nm)
+            arr_ = ('agg', 'array', None, None, tuple((str(k), C(ord(ch))) for k, ch in enumerate(nm)))
+            outs1 = [o for o in Engine(facts, unroll=True).run(pf, args=[('ref', ('K', arr_))]) if o.kind != 'abort']
+            got = bb_of(outs1[0].value) if len(outs1) == 1 and outs1[0].kind == 'return' and outs1[0].value is not None else None
+            if got != 1 << i:
+                bad.append((nm, sq_name(got) if got else got))
+        ctx.ob(rule, pf, 'custom square parser agrees with the naming table on all 64 squares', not bad, found=bad[:4], expected='name -> the square it names',
+               why='the compiled book must be the book that was linted')
+
+
 def run(ctx):
+    r6_token_parsing(ctx)
     r12_book(ctx)
     r3_fallback(ctx)
     r4_key(ctx)
